@@ -21,6 +21,12 @@ CHECKS = {
     design="5/C10",
     note="Trusted: Lean kernel; networkx contracts re-checked per sample; model = implementation is sampled; completeness of the graph's edges w.r.t. the emitted statements is decided through DA on sampled programs.",
     technique="Lean 4 proof over an abstract insertion-ordered digraph model of __hoist + differential correspondence on exported flow graphs and random DAGs"),
+ "C19": dict(
+    category="proof",
+    text="Lean theorem C19.default_order: for every Einsum, every set of single-rank partitionings and every order in which the implementation iterates that set (all hash seeds), the default loop order computed as the code does (append-if-new over the first term, then in-place replacement part by part) equals the canonical order of the property statement (output ranks as written, remaining ranks by first appearance, each partitioned rank replaced in place by its levels). Tie: (a) real compiler, section omitted vs default written out by the harness from the property statement (rank-order, loop-order, partitioning, whole mapping) - texts identical; (b) Lean model under the implementation's own set iteration order = LoopOrder.get_ranks().",
+    design="5/C19",
+    note="Trusted: Lean kernel; the harness's independent default; model = implementation sampled; flatten() tuples are outside the Lean model (text differential of rank-order only). Known finding: take-term-first Einsums take their default order from the first product term.",
+    technique="Lean 4 proof (schedule-independent in-place expansion = canonical order) + omitted-vs-explicit text differential on the real compiler"),
 }
 
 NOT_YET = {}
